@@ -567,9 +567,10 @@ func H_C12_datetime_separator_pairs() {
 
 func vQ(s string) string { return "'" + s + "'" }
 
-// one type whose rule lists contain empty items, repeated rules and an unknown rule, three calls in a row (nothing
-// / a rule set / per-call functions): what an earlier call did to anything kept per type must not show in a later one
+// one type whose rule lists contain empty items, repeated rules and an unknown rule, called again and again (nothing
+// / a rule set / per-call functions): what an earlier call did to anything kept per type must not show in a later one.
+// Three calls under the LIFO pool (the adversarial pool is exercised by the pair catalogue above).
 func H_C12_same_type_three_calls() {
-	vPoolMode([]string{"lifo", "adversarial"}[vndChoice("pool", 2)])
-	vSameTypeThreeCalls("C12")
+	vPoolMode("lifo")
+	vSameTypeCalls("C12", 3)
 }
